@@ -12,6 +12,9 @@ TOL64 = 1e-9     # identities evaluated entirely in float64 / complex128
 def _mods():
     import numpy as np
     import torch
+
+    if torch.get_num_threads() != 1:
+        torch.set_num_threads(1)  # tiny arrays: intra-op threading only costs (and fights with the other checks' processes)
     from quantem.diffractive_imaging import ptycho_utils as pu
     from quantem.diffractive_imaging.ptychography_base import PtychographyBase
     from quantem.diffractive_imaging.ptychography import Ptychography
@@ -99,6 +102,14 @@ def fam_ramp(tier="quick", seed=0):
 
 def rt_shift(inp):
     """fourier_shift_expand on complex arrays (and, class 'real-input', on real arrays): energy, additivity, inverse, integer shift = roll."""
+    import warnings
+
+    with warnings.catch_warnings():
+        warnings.simplefilter("ignore")  # the real-array path triggers "Casting complex values to real discards the imaginary part"
+        return _rt_shift(inp)
+
+
+def _rt_shift(inp):
     m = _mods()
     np, torch = m.np, m.torch
     nr, nc = inp["nr"], inp["nc"]
@@ -499,6 +510,18 @@ def klass_projection(inp, res):
     if "other" in k or "shape" in k:
         return "other"
     return "+".join(k)
+
+
+def fam_projection_single(tier="quick", seed=0):
+    for inp in fam_projection(tier, seed):
+        if inp["M"] == 1:
+            yield inp
+
+
+def fam_projection_mixed(tier="quick", seed=0):
+    for inp in fam_projection(tier, seed):
+        if inp["M"] > 1:
+            yield inp
 
 
 def fam_projection(tier="quick", seed=0):
